@@ -462,6 +462,11 @@ func examineSaved(c *Ctx, nm *namer, ref *Ref, sc saveCase, dir string, died str
 				if math.Abs(row.vals[k]-fresh[i][vi]) > 0.5e-3+1e-9 {
 					fail("C12: every row gives the decision-variable values of the model evaluated at the row's action encoding", "saved:row-values-differ-from-fresh-model",
 						fmt.Sprintf("%s row %d (%s, actions %s): %s = %v in the file, a fresh model gives %v", file, i, row.label, row.actions, vnames[k], row.vals[k], fresh[i][vi]))
+					// C05's last clause, for the solution set of a multi-objective run as it is finally REPORTED (seed C05m)
+					if sc.fam != "single" && i > 0 {
+						fail("C05: each reported member's objective values are those of the model evaluated at that member's action set", "saved:member-values-differ-from-fresh-model",
+							fmt.Sprintf("%s member %d (%s, actions %s): %s = %v as reported, a fresh model at that action set gives %v", file, i, row.label, row.actions, vnames[k], row.vals[k], fresh[i][vi]))
+					}
 				}
 			}
 		}
